@@ -98,7 +98,7 @@ class AttributeCollection(MutableMapping[int, Attribute]):
         Attribute.CODE.LOCAL_PREF: ('integer', '', 'local-preference', '%s', '%s'),
         Attribute.CODE.ATOMIC_AGGREGATE: ('boolean', '', 'atomic-aggregate', '%s', '%s'),
         Attribute.CODE.AGGREGATOR: ('string', '', 'aggregator', '( %s )', '%s'),
-        Attribute.CODE.AS4_AGGREGATOR: ('string', '', 'aggregator', '( %s )', '%s'),
+        Attribute.CODE.AS4_AGGREGATOR: ('string', '', 'as4-aggregator', '( %s )', '%s'),
         Attribute.CODE.COMMUNITY: ('list', '', 'community', '%s', '%s'),
         Attribute.CODE.LARGE_COMMUNITY: ('list', '', 'large-community', '%s', '%s'),
         Attribute.CODE.ORIGINATOR_ID: ('inet', '', 'originator-id', '%s', '%s'),
